@@ -28,7 +28,7 @@ func init() {
 			"masks are generated only for glyphs with at least one stem and with ceil(n/8) mask bytes",
 			"glyphs whose stems need several stem operators per direction are compared with t2interp's stem values for information only (multi-operator stem semantics), and with cff.Read as the judge",
 			"fractional widths of magnitude >= 10000 are multiples of 1/4 (a 9-digit DICT real resolves 2^-16 only below 10^4)",
-			"widths: max-min < 32000 within a font (wider ranges only in stratum wide-widths)",
+			"widths: max-min < 32000 within a font in the main strata; stratum wide-widths covers ranges up to 65000 (a nominal width exists), also with negative widths",
 			"cffmini and t2interp (own code from TN5176/TN5177) are right where they agree with cff.Read or x/image",
 		},
 	}, runC04)
@@ -986,31 +986,49 @@ func runC04(c *mon.Ctx) {
 		c04check(k, []*cff.Glyph{g}, nil, false, "big-deltas:")
 	})
 
-	// width ranges for which a nominal width exists (max-min <= 65000) but which are wider than the main strata use
+	// width ranges for which a nominal width exists (max-min <= 65000) but which
+	// are wider than the main strata use, also around zero (negative widths):
+	// in the domain, the font must be written and must be faithful
 	c.Stratum("wide-widths", c.N(300, 10000), func(k *mon.Case) {
 		r := k.Rng
 		n := 3 + r.IntN(20)
 		glyphs := make([]*cff.Glyph, n)
 		lo := float64(r.IntN(500))
 		span := float64(33000 + r.IntN(32000))
+		if r.IntN(2) == 0 {
+			lo = -float64(r.IntN(32001))
+			k.Class("wide-widths:negative")
+		}
+		mid := r.IntN(3) == 0 // some widths in between pull the mean around
 		for i := range glyphs {
 			name := fmt.Sprintf("w%d", i)
 			if i == 0 {
 				name = ".notdef"
 			}
 			glyphs[i] = &cff.Glyph{Name: name, Width: lo + float64(r.IntN(300))}
-			if r.IntN(5) == 0 {
+			switch {
+			case r.IntN(5) == 0:
 				glyphs[i].Width = lo + span - float64(r.IntN(300))
+			case mid && r.IntN(2) == 0:
+				glyphs[i].Width = lo + float64(r.IntN(int(span)))
 			}
 		}
 		glyphs[n-1].Width = lo + span
-		c04check(k, glyphs, nil, false, "wide-widths:")
+		if r.IntN(2) == 0 {
+			// many glyphs at the upper end: the mean is far from the lower end
+			glyphs[1].Width = lo
+			for i := 2; i < n-1; i++ {
+				glyphs[i].Width = lo + span - float64(r.IntN(200))
+			}
+			k.Class("wide-widths:mean-near-one-end")
+		}
+		c04check(k, glyphs, nil, true, "wide-widths:")
 	})
 
 	req := []string{"stack-depth-48", "width:explicit", "width:omitted", "width:fractional-default", "width:fractional-nominal",
 		"num:int1", "num:int2", "num:int3", "num:fixed16.16", "stems:1-24", "stems:25-48", "stems:49-95", "stems:96", "glyph:with-masks",
 		"stems:multi-operator", "stems:single-operator", "ximage-agrees", "enum:hv-runs-1..60x2", "enum:hv-chains-1..13x2x2",
-		"widths:all-equal", "widths:dominant", "widths:distinct", "widths:narrow-cluster", "widths:single-outlier", "widths:fractional-cluster", "widths:large", "widths:above-32767", "widths:skewed"}
+		"widths:all-equal", "widths:dominant", "widths:distinct", "widths:narrow-cluster", "widths:single-outlier", "widths:fractional-cluster", "widths:large", "widths:above-32767", "widths:skewed", "wide-widths:negative", "wide-widths:mean-near-one-end"}
 	for _, n := range c04opNames {
 		req = append(req, "op:"+n)
 	}
